@@ -1756,6 +1756,15 @@ func (e *Env) mapUpdate(st *State, fr *Frame, x *ssa.MapUpdate) {
 			st.cells[id] = nv
 		}
 	}
+	// the map was loaded from a variable / struct field (m := s.f; m[k] = v): the update is visible through that
+	// location (maps are references), so the new map value is written back there
+	if u, ok := x.Map.(*ssa.UnOp); ok && u.Op == token.MUL {
+		if pv, ok := fr.regs[u.X]; ok && pv.K == kPtr && pv.Nil == "" {
+			if cur := e.load(st, pv.Ptr); cur.K == kTerm && cur.T == mt {
+				e.store(st, pv.Ptr, nv)
+			}
+		}
+	}
 }
 
 // ---------------------------------------------------------------------------
